@@ -204,9 +204,161 @@ func collectorStopCase(srv *lrsrv.Srv, sec *vh.Section, name string) {
 	}
 }
 
+// refuseClient lets the first `refuse` Writes fail on the SERVER (the real client is called with a tag line the server
+// cannot parse, with the caller's own WriteResult: a genuine operation error, the server is reachable) and records every
+// call: what was offered and whether the server stored it.
+type refuseClient struct {
+	api.Client
+	mu        sync.Mutex
+	refuse    int
+	calls     int
+	refused   int
+	offers    []string // first message of every offered event, "!" appended when the server refused it
+	storedEnd int64    // bytes of the lines the server has acknowledged without an error
+	skipped   string   // first violation of "nothing after a refused event before that event is stored"
+	pending   string   // first message of the event the server refused last and has not stored yet
+}
+
+func (f *refuseClient) Write(ctx context.Context, tags, fields string, evs []*api.LogEvent, res *api.WriteResult) error {
+	first := ""
+	if len(evs) > 0 {
+		first = evs[0].Message
+	}
+	f.mu.Lock()
+	f.calls++
+	bad := f.calls <= f.refuse
+	if f.pending != "" && first != f.pending && f.skipped == "" {
+		f.skipped = fmt.Sprintf("event %q was offered while event %q, which the server had refused, was not stored yet (offers so far: %q)", first, f.pending, f.offers)
+	}
+	f.mu.Unlock()
+	if bad {
+		tags = "{this is not a tag line"
+	}
+	err := f.Client.Write(ctx, tags, fields, evs, res)
+	f.mu.Lock()
+	defer f.mu.Unlock()
+	if err == nil && res != nil && res.Err != nil {
+		f.refused++
+		f.pending = first
+		f.offers = append(f.offers, first+"!")
+	} else if err == nil {
+		if f.pending == first {
+			f.pending = ""
+		}
+		f.offers = append(f.offers, first)
+		for _, e := range evs {
+			f.storedEnd += int64(len(e.Message))
+		}
+	}
+	return err
+}
+
+// offsetWatch is a storage that compares every saved offset with what the server has stored at that moment
+type offsetWatch struct {
+	*memStorage
+	cl   *refuseClient
+	mu   sync.Mutex
+	over string
+}
+
+func (o *offsetWatch) WriteData(key string, val []byte) error {
+	var ds []descJ
+	json.Unmarshal(val, &ds)
+	o.cl.mu.Lock()
+	end := o.cl.storedEnd
+	o.cl.mu.Unlock()
+	for _, d := range ds {
+		if d.Offset > end {
+			o.mu.Lock()
+			if o.over == "" {
+				o.over = fmt.Sprintf("saved offset %d while the server had stored the file's bytes up to %d only", d.Offset, end)
+			}
+			o.mu.Unlock()
+		}
+	}
+	return o.memStorage.WriteData(key, val)
+}
+
+// collectorRefusedCase: the server is reachable but answers the first n Writes — all of them the first event — with an
+// operation error, then recovers. The collector pauses its real 5 s after each. SPEC: nothing behind the refused event is
+// offered before that event is stored; no saved offset passes a record the server has not stored; in the end the partition
+// holds every line of the file once, in order.
+func collectorRefusedCase(srv *lrsrv.Srv, sec *vh.Section, n int) {
+	name := fmt.Sprintf("refused-%d", n)
+	dir := lrsrv.NewDir()
+	defer os.RemoveAll(dir)
+	fn := filepath.Join(dir, name+".log")
+	lines := []string{"alpha", "beta", "gamma", "delta", "epsilon"}
+	content := strings.Join(lines, "\n") + "\n"
+	os.WriteFile(fn, []byte(content), 0644)
+	tagv := fmt.Sprintf("c17refused%d", n)
+	cfg := scanCfg(fn, "pure", 2, 1, 1) // state saved every second
+	cfg.Schemas[0].Meta.Tags = map[string]string{"src": tagv}
+	var clock int64
+	cl := &refuseClient{Client: srv.Client, refuse: n}
+	st := &offsetWatch{memStorage: newMemStorage(&clock), cl: cl}
+	input := map[string]interface{}{"section": "collector", "case": name}
+	ctx, cancel := context.WithCancel(context.Background())
+	done := make(chan error, 1)
+	go func() { done <- collector.Run(ctx, cfg, cl, st) }()
+	// n refusals, 5 s pause after each, then everything goes through: n*5 s + generous margin
+	deadline := time.Now().Add(time.Duration(n*5+15) * time.Second)
+	for time.Now().Before(deadline) {
+		cl.mu.Lock()
+		all := cl.storedEnd >= int64(len(content))
+		cl.mu.Unlock()
+		if all {
+			break
+		}
+		time.Sleep(50 * time.Millisecond)
+	}
+	time.Sleep(1500 * time.Millisecond) // one more save tick
+	var got []string
+	qr := &api.QueryRequest{Query: "select from src=" + tagv + " limit 1000", Limit: 1000}
+	var qres api.QueryResult
+	if err := srv.Client.Query(context.Background(), qr, &qres); err == nil && qres.Err == nil {
+		for _, e := range qres.Events {
+			got = append(got, strings.TrimRight(e.Message, "\n"))
+		}
+	}
+	cancel()
+	select {
+	case <-done:
+	case <-time.After(70 * time.Second):
+		res.Note("collector/%s: collector.Run did not return after cancel", name)
+	}
+	cl.mu.Lock()
+	refused, skipped, offers := cl.refused, cl.skipped, append([]string{}, cl.offers...)
+	cl.mu.Unlock()
+	st.mu.Lock()
+	over := st.over
+	st.mu.Unlock()
+	res.Eval(sec, name)
+	res.Dist(sec, fmt.Sprintf("%s:server-refusals=%d", name, refused))
+	if refused < n {
+		res.Note("collector/%s: the server refused %d of the %d injected writes — schedule not reached (offers %q)", name, refused, n, offers)
+		return
+	}
+	fail := func(kind, impl, spec, what string) {
+		res.SpecFail(vh.SpecFailure{Section: "collector", Kind: kind, Input: input, Impl: impl, Spec: spec, What: what})
+	}
+	if skipped != "" {
+		fail("event-skipped-after-server-errors", skipped, "the refused event again, until the server has stored it",
+			fmt.Sprintf("the server answered %d consecutive writes of one event with an operation error: the collector must keep offering that event (its records are not stored), nothing behind it may be offered first", n))
+	}
+	if over != "" {
+		fail("saved-offset-passes-unstored-record", over, "a saved offset is the end of a record whose delivery was confirmed",
+			"the offset the collector persists is always the end of a record the server has stored")
+	}
+	if strings.Join(got, "\x00") != strings.Join(lines, "\x00") {
+		fail("server-content-differs-from-file", fmt.Sprintf("after %d refusals and the recovery the partition holds %q (offers: %q)", refused, got, offers), fmt.Sprintf("%q", lines),
+			"after the server has recovered the partition must hold every line of the file, each once, in order")
+	}
+}
+
 func sectionCollector() {
 	sec := res.Section("collector", "spec-search",
-		"the real client/collector.Run on real files (5 lines, 2 records per event), the real rpc client and the real in-process server. (a) the first write is made to fail on the server (a tag line it cannot parse, through the real client and the collector's own re-used WriteResult), every later write goes through; the collector sleeps its real 5 s and retries. SPEC: 11 s later the partition holds exactly the file's lines, each once, in order. (b) idle-stop / busy-stop: a graceful stop while the collector waits for an event / pauses after a failed write, on a slow disk (300 ms per save) behind a process boundary (saves that complete after Run has returned are lost), then a second life on the same disk. SPEC: when Run returns the disk holds the end of the confirmed bytes; the second life ships the rest, once. non-trivial = the three schedules")
+		"the real client/collector.Run on real files (5 lines, 2 records per event), the real rpc client and the real in-process server. (a) the first write is made to fail on the server (a tag line it cannot parse, through the real client and the collector's own re-used WriteResult), every later write goes through; the collector sleeps its real 5 s and retries. SPEC: 11 s later the partition holds exactly the file's lines, each once, in order. (b) idle-stop / busy-stop: a graceful stop while the collector waits for an event / pauses after a failed write, on a slow disk (300 ms per save) behind a process boundary (saves that complete after Run has returned are lost), then a second life on the same disk. SPEC: when Run returns the disk holds the end of the confirmed bytes; the second life ships the rest, once. (c) refused-3 (thorough: also refused-5): the server answers the first 3 (5) writes — all of them the first event — with an operation error and then recovers, state saved every second. SPEC: nothing behind the refused event is offered before it is stored, no saved offset passes a record the server has not stored, in the end the partition holds every line once, in order. non-trivial = every schedule")
 	defer res.Done(sec)
 	dir := lrsrv.NewDir()
 	defer os.RemoveAll(dir)
@@ -220,6 +372,15 @@ func sectionCollector() {
 	for _, name := range []string{"idle-stop", "busy-stop"} {
 		wg.Add(1)
 		go func(name string) { defer wg.Done(); collectorStopCase(srv, sec, name) }(name)
+	}
+	// the server refuses one event 3 times (5 times: thorough tier) — 5 s pause after each, next to everything else
+	ns := []int{3}
+	if args.Thorough {
+		ns = append(ns, 5)
+	}
+	for _, n := range ns {
+		wg.Add(1)
+		go func(n int) { defer wg.Done(); collectorRefusedCase(srv, sec, n) }(n)
 	}
 	defer wg.Wait()
 	collectorWriteFailure(srv, sec, dir)
@@ -244,6 +405,10 @@ func replayCollector(raw json.RawMessage) {
 	switch in.Case {
 	case "idle-stop", "busy-stop":
 		collectorStopCase(srv, sec, in.Case)
+	case "refused-3":
+		collectorRefusedCase(srv, sec, 3)
+	case "refused-5":
+		collectorRefusedCase(srv, sec, 5)
 	default:
 		collectorWriteFailure(srv, sec, dir)
 	}
